@@ -1,15 +1,15 @@
 SPECIFICATION Spec
 CONSTANTS
   MaxTop = 3
-  MaxBlocks = 2
+  MaxBlocks = 1
   MaxSubs = 2
-  MaxStmts = 2
-  MaxNotes = 1
-  MaxDirs = 0
-  MaxNons = 0
+  MaxStmts = 1
+  MaxNotes = 2
+  MaxDirs = 1
+  MaxNons = 1
   WordCounts = {1}
-  GenBlockTypes = {"c", "i"}
+  GenBlockTypes = {"c"}
   Rich = FALSE
-  Phased = FALSE
+  Phased = TRUE
 INVARIANT WellFormed
 CHECK_DEADLOCK FALSE
